@@ -15,7 +15,7 @@ import dlib  # noqa: E402
 
 logging.disable(logging.CRITICAL)
 
-from traits.api import (on_trait_change, Undefined, Instance, UUID, DelegatesTo, PrototypedFrom, Any, Dict, HasTraits, Int, List, Property, ReadOnly, Set, Str, TraitError,  # noqa: E402
+from traits.api import (on_trait_change, Float, WeakRef, Undefined, Instance, UUID, DelegatesTo, PrototypedFrom, Any, Dict, HasTraits, Int, List, Property, ReadOnly, Set, Str, TraitError,  # noqa: E402
                         cached_property, observe, push_exception_handler, pop_exception_handler)
 from traits.trait_list_object import TraitListObject  # noqa: E402
 from traits.trait_dict_object import TraitDictObject  # noqa: E402
@@ -33,6 +33,7 @@ class Child(HasTraits):
 
 
 GRAPH_LOG = []
+OUTSIDE = Child(v=99)       # a live object that is not part of any copied graph
 
 
 def trait_of(t, md):
@@ -92,6 +93,10 @@ def make_class(case):
         ns["_words_edited"] = on_trait_change("words[]", post_init=True)(_words_edited)
         ns["drows"] = DelegatesTo("inst", prefix="rows")      # write-through delegate onto a deep-copy container trait
         ns["pv"] = PrototypedFrom("inst", prefix="v")         # non-write-through delegate, never overridden
+        ns["temp_"] = Float()                                   # a trait-name wildcard: temp_lunch, temp_x ...
+        if case["op"][0] != "pickle":
+            ns["wr"] = WeakRef(Child)                           # weak back-reference to an object OUTSIDE what is copied
+                                                                # (an object with a WeakRef trait cannot be pickled at all)
         ns["kidset"] = Set(Instance(Child))                    # items also reachable through `kids`
         ns["ml"] = List(Int, [7], minlen=1)                    # a list that may never be empty
         ns["uid"] = UUID(can_init=True)                        # writable only until the object is initialised
@@ -296,6 +301,14 @@ def graph_probes(pool, o, c):
                 and any(x is c.kids[0] for x in c.kidset) and any(x is o.kids[0] for x in o.kidset)])
     # 913: a list trait with minlen >= 1 keeps its (non-default) value
     out.append(["inst", 913, "deep", c.ml is o.ml, list(c.ml) == list(o.ml) == [5, 6]])
+    # 914: values stored under names that are not declared individually (wildcard-matched, plain undeclared) are part of
+    # the object's state
+    out.append(["inst", 914, "deep", False,
+                getattr(c, "temp_lunch", None) == 21.5 and getattr(c, "note", None) == 7
+                and getattr(o, "temp_lunch", None) == 21.5 and getattr(o, "note", None) == 7])
+    # 915: a weak back-reference to an object outside the copied graph still points at that object (WeakRef: copy="ref")
+    if hasattr(type(o), "wr") or "wr" in type(o).__base_traits__:
+        out.append(["inst", 915, meta("wr"), c.wr is o.wr and o.wr is not None, c.wr is OUTSIDE and o.wr is OUTSIDE])
     # 901: the child's own container is live on the copy's child
     wi, wo = [], []
     hs = {}
@@ -365,6 +378,10 @@ def run_case(case):
     if case.get("graph"):
         o.inst = Child(v=3, tags=["x"])
         o.kids = [Child(v=1, tags=["a"]), Child(v=2)]
+        o.temp_lunch = 21.5                                    # matched by the wildcard trait temp_
+        o.note = 7                                             # a plain undeclared attribute (non-strict HasTraits)
+        if case["op"][0] != "pickle":
+            o.wr = OUTSIDE
         o.early = 42                                           # local override of the prototyped trait
         o.kidset = {o.kids[0], Child(v=6)}
         o.ml = [5, 6]
